@@ -342,11 +342,12 @@ func oneRound(t *rapid.T, tr *transcript) {
 		}
 		ss2, _ := s.Decapsulate(sk, ct)
 		bad := append([]byte{}, ct...)
-		bad[rapid.IntRange(0, len(bad)-1).Draw(t, "kpos")] ^= 1 << rapid.IntRange(0, 7).Draw(t, "kbit")
+		kpos, kbit := rapid.IntRange(0, len(bad)-1).Draw(t, "kpos"), rapid.IntRange(0, 7).Draw(t, "kbit")
+		bad[kpos] ^= 1 << kbit
 		ss3, err3 := s.Decapsulate(sk, bad)
 		pkb, _ := pk.MarshalBinary()
 		skb, _ := sk.MarshalBinary()
-		tr.emit("kem/"+s.Name(), c1+c2+"tampered", [][]byte{seed, eseed, bad}, [][]byte{pkb, skb, ct, ss, ss2, ss3, {b2b(err3 == nil)}})
+		tr.emit("kem/"+s.Name(), c1+c2+"tampered", [][]byte{seed, eseed, {byte(kpos), byte(kpos >> 8), byte(kbit)}}, [][]byte{pkb, skb, ct, ss, ss2, ss3, {b2b(err3 == nil)}}) // inputs are the drawn values only: the altered ciphertext derives from an output
 		_ = kem.Scheme(s)
 	}
 	// ---- SIKE (slow: one in four rounds)
